@@ -1,5 +1,5 @@
 SCHK = "verifharness/checks/storagechk"
-WIP["C11"] = dict(
+CHECKS["C11"] = dict(
     level="exploration", engine="E1",
     technique="stateful property-based testing on the full-chain simulator: generated lock / unlock / collect / reward interleavings with an exact per-pool and per-balance delta oracle",
     level_text="Generated interleavings of stake_pool_lock, stake_pool_unlock, collect_reward and reward-accruing operations by several clients and delegate wallets on blobber and validator stake pools run on the real chain; every successful lock, unlock and collect is checked for the exact balance movements (staker, contract wallet), the exact change of the staker's own delegate pool, the configured stake bounds and delegate limit, removal of an unlocked pool, and that no other delegate pool or provider changes; refused calls must change nothing.",
